@@ -29,6 +29,9 @@ pub async fn run_case(role: Role, unsub: bool, filters: &[String]) -> Vec<(Strin
         if !handled || !stops.is_empty() {
             vio.push(("request with valid topic filters was not handled".into(), format!("handled {handled}, stops {stops:?} — {what}")));
         }
+    } else if unsub {
+        // the statement is about SUBSCRIBE (and about the validators themselves); for UNSUBSCRIBE
+        // only "handled or refused, never a panic" is demanded
     } else {
         if handled {
             vio.push(("request carrying an invalid topic filter reached the application".into(), what.clone()));
